@@ -119,7 +119,19 @@ func C17(c *Ctx) {
 	c.Bound("all token strings of length <= %d over arbitrary int64 codes; Go variants go and go -o (packed) and their -u forms", N)
 	c.Outside = append(c.Outside, "inputs longer than N", "--httpdebug tracing")
 	c.Harnesses = append(c.Harnesses, "harness/gen/ref.go.txt:VerifTrace")
-	runGenEntry(c, "C17", "VerifTrace", []int{N}, GoVariants, []string{"shift-line", "reduce-line", "goto-line", "accept", "reject"}, nil)
+	logged := func(name string) bool { return name != "copy_actions" } // every reduction must log itself
+	runGenEntry(c, "C17", "VerifTrace", []int{N}, GoVariants, []string{"shift-line", "reduce-line", "goto-line", "accept", "reject"}, logged)
+	// two contexts: the trace of one parse with another context parsing inside one of its reductions
+	c.Harnesses = append(c.Harnesses, "generated zz_verif_spec.go:VerifTraceNested")
+	nv, nyT, nxT := []string{"go-o"}, 1, 2
+	if c.Thorough() {
+		nv, nyT, nxT = []string{"go-o", "go-o-u"}, 2, 3
+	}
+	c.Bound("trace with a nested parse on another context inside a solver-chosen reduction (object mode): x %d tokens, y %d tokens; the outer lines must equal the solo trace", nxT, nyT)
+	nestedSet := func(name string) bool {
+		return logged(name) && (c.Thorough() || (name != "stmts12" && name != "len10" && name != "prec_mixed" && name != "redecl" && !strings.HasPrefix(name, "rich_") && !strings.HasPrefix(name, "rand_")))
+	}
+	runGenEntry(c, "C17", "VerifTraceNested", []int{nxT, nyT}, nv, []string{"trace-nested"}, nestedSet)
 	if c.Rep != nil && c.Rep.Covers["unparsed-line"] > 0 {
 		c.Inconclusive("the trace contains lines in a format the harness does not know (%d paths): the wording of the trace changed; the check cannot decide", c.Rep.Covers["unparsed-line"])
 	}
